@@ -829,7 +829,11 @@ impl<'c> VisitMut for Rw<'c> {
         // T1: `Arc::new(AtomicBool::new(v))` is the shared atomic handle itself
         if let Expr::Call(c) = e { let f = nospace(&c.func.to_token_stream().to_string()); if c.args.len() == 1 && (f == "Arc::new" || f == "std::sync::Arc::new") { if let Expr::Call(inner) = &c.args[0] { let g = nospace(&inner.func.to_token_stream().to_string()); if g.ends_with("AtomicBool::new") { let i = c.args[0].clone(); self.cx.fire("T1"); *e = i; } } } }
         // D5: `drop(e)` / `std::mem::drop(e)` ends the value's life here
-        if let Expr::Call(c) = e { let f = nospace(&c.func.to_token_stream().to_string()); if c.args.len() == 1 && matches!(f.as_str(), "drop" | "std::mem::drop" | "mem::drop") { let a = c.args[0].clone(); self.cx.fire("D5"); *e = parse_quote!(vdrop(#a)); } }
+        if let Expr::Call(c) = e { let f = nospace(&c.func.to_token_stream().to_string()); if c.args.len() == 1 && matches!(f.as_str(), "drop" | "std::mem::drop" | "mem::drop") { let a = c.args[0].clone(); self.cx.fire("D5");
+            // D5x: dropping something whose drop the model knows an effect of (the receiving end of the mailbox: the queue is closed)
+            let txt = nospace(&a.to_token_stream().to_string());
+            let fx = self.cx.unit.dropfx.iter().find(|(n, _)| txt == *n || txt.ends_with(&format!(".{}", n)) || txt.ends_with(&format!("_{}", n))).map(|(_, f)| f.clone());
+            match fx { Some(f) => { let fi = ident(&f); self.cx.fire("D5x"); *e = parse_quote!(#fi(#a, Tracked(w))); } None => { *e = parse_quote!(vdrop(#a)); } } } }
         // T4: to_owned on Clone types is clone
         if let Expr::MethodCall(m) = e { if m.method == "to_owned" && m.args.is_empty() { m.method = syn::Ident::new("clone", m.method.span()); self.cx.fire("T4"); } }
         // F2: future.map(Ok) / future.map(|_| ())
